@@ -33,6 +33,12 @@ def one(sid):
     base = "HEAD" if applies_on_head(patch) else m.get("base_commit", "HEAD")
     r = subprocess.run([os.path.join(HERE, "run_mutant.py"), patch] + checks + ["--base", base, "--skip-tests"], capture_output=True, text=True)
     caught = [l for l in r.stdout.splitlines() if l.startswith("CAUGHT-BY:")]
+    if base == "HEAD" and m.get("base_commit") and (not caught or "(none)" in caught[0]):
+        # a change written for an older tree can lose its effect when its patch is applied to the present one (the lines it relies on
+        # were repaired since): then it is run on the tree it was written for
+        base = m["base_commit"]
+        r = subprocess.run([os.path.join(HERE, "run_mutant.py"), patch] + checks + ["--base", base, "--skip-tests"], capture_output=True, text=True)
+        caught = [l for l in r.stdout.splitlines() if l.startswith("CAUGHT-BY:")]
     return sid, {"property": m.get("property"), "checks": checks, "tree": base, "caught_by": caught[0].split(":", 1)[1].split() if caught else [],
                  "harness_error": "HARNESS" in r.stdout, "patch_failed": "PATCH-FAILED" in r.stdout}
 
